@@ -116,7 +116,20 @@ func TestC13(t *testing.T) {
 	Ev.Component("stream source (short reads), process boundary (gob round trip + new reader stack)", "simulated")
 	Prop(t, "C13", func(rt *rapid.T) {
 		msgs := genMessages(rt)
+		if rapid.IntRange(0, 5).Draw(rt, "emptylast") == 0 {
+			// the stream ends in a message that encodes to zero bytes: its last byte is a length prefix
+			msgs = append(msgs, &pwr.SyncOp{})
+			Ev.Probe("stream_ends_in_an_empty_message")
+		}
 		comp := GenCompression(rt)
+		// the reader's owner need not collect a checkpoint as soon as there is one
+		popMask := ^uint64(0)
+		switch rapid.IntRange(0, 7).Draw(rt, "popmask") {
+		case 0:
+			popMask = 0
+		case 1:
+			popMask = rapid.Uint64().Draw(rt, "popmaskbits")
+		}
 		slice1 := drawSlicer(rt, "slice1")
 		slice2 := drawSlicer(rt, "slice2")
 		pattern := rapid.IntRange(0, 3).Draw(rt, "savepattern") // 0 always, 1 every k, 2 random subset, 3 single index
@@ -161,8 +174,11 @@ func TestC13(t *testing.T) {
 			if want(i) {
 				rc.WantSave()
 			}
-			if c := rc.PopCheckpoint(); c != nil {
-				popped = append(popped, poppedCk{c, i})
+			if popMask>>(uint(i)%64)&1 == 1 || i == len(msgs) {
+				if c := rc.PopCheckpoint(); c != nil {
+					popped = append(popped, poppedCk{c, i})
+					Ev.ProbeIf(i == len(msgs) && popMask != ^uint64(0), "checkpoint_collected_late_after_the_last_message")
+				}
 			}
 			var rerr error
 			p := Recover(func() { rerr = rc.ReadMessage(got) })
@@ -282,7 +298,38 @@ func TestC13(t *testing.T) {
 					return
 				}
 			}
-			if len(early) > 0 {
+			if rapid.Bool().Draw(rt, "reusefromstart") {
+				// start over in place: Resume(nil), whatever save was in flight
+				var rerr error
+				if p := Recover(func() { rerr = rc3.Resume(nil) }); p != "" || rerr != nil {
+					Violation(rt, "C13/resume-failed", "Resume(nil) on a reader that had read %d messages: %v %s (%s)", stopAt, rerr, p, CompString(comp))
+					return
+				}
+				Ev.Probe("same_reader_started_over_with_a_save_in_flight")
+				var later []poppedCk
+				for i := 0; i <= len(msgs); i++ {
+					if lazy>>(uint(i+7)%64)&1 == 1 {
+						rc3.WantSave()
+					}
+					if c := rc3.PopCheckpoint(); c != nil {
+						later = append(later, poppedCk{c, i})
+					}
+					if i == len(msgs) {
+						break
+					}
+					var rerr error
+					p := Recover(func() { rerr = rc3.ReadMessage(got) })
+					if p != "" || rerr != nil || !proto.Equal(got, msgs[i]) {
+						Violation(rt, "C13/resume-wrong-message", "same reader started over after %d messages: message %d wrong or failed: %v %s (%s)", stopAt, i, rerr, p, CompString(comp))
+						return
+					}
+				}
+				for _, pc := range later {
+					if !checkResume(pc) {
+						return
+					}
+				}
+			} else if len(early) > 0 {
 				back := early[rapid.IntRange(0, len(early)-1).Draw(rt, "reuseback")]
 				var gb bytes.Buffer
 				c2 := &wire.MessageReaderCheckpoint{}
